@@ -35,7 +35,7 @@ package validator
 //@   requires implies(isBlock(node) && nodeSchema != nil, typeis(nodeSchema, "*schema.BlockSchema") && as(nodeSchema, "*schema.BlockSchema") != nil)
 //@   ensures [C15] implies(!(isBlock(node) && nodeSchema != nil), len(diags) == 0)
 //@   ensures [C15] implies(isBlock(node) && nodeSchema != nil, len(diags) == ite(len(blockOf(node).Labels) > len(as(nodeSchema, "*schema.BlockSchema").Labels), len(blockOf(node).Labels) - len(as(nodeSchema, "*schema.BlockSchema").Labels), 0) + ite(len(as(nodeSchema, "*schema.BlockSchema").Labels) > len(blockOf(node).Labels), 1, 0))
-//@   loop 1 invariant [C15] len(diags) == ite(rangeindex + 1 > validLabelNum, rangeindex + 1 - validLabelNum, 0)
+//@   loop 1 invariant [C15,claim] len(diags) == ite(rangeindex + 1 > validLabelNum, rangeindex + 1 - validLabelNum, 0)
 //@   loop 1 iter [C15] implies(i >= validLabelNum, len(diags) == old(len(diags)) + 1 && diags[len(diags)-1].Severity == hcl.DiagError && *diags[len(diags)-1].Subject == block.LabelRanges[i])
 //@ contract (validator.MissingRequiredAttribute).Visit (v, ctx, node, nodeSchema) (ctx2, diags)
 //@   requires implies(isBody(node) && nodeSchema != nil, typeis(nodeSchema, "*schema.BodySchema") && as(nodeSchema, "*schema.BodySchema") != nil)
